@@ -35,7 +35,7 @@ func init() {
 		Batches: func(tier string) int { return map[string]int{"quick": 16, "thorough": 48}[tier] },
 		Run:     run,
 		Rule: "cases: (1) every defined function x arity 0-3 x argument kind {nil, bool, ints, floats, strings, arrays, maps, $-path hit/miss, @-path, nested call, quoted path, path into $.asm} on a fixed root; " +
-			"(2) random typed plans (statements setting keys under $.asm from nested numeric/string/boolean/list expressions of depth <= 3, cond, each with inner plans, get/getall/set/setall/del/delall, wrong-kind and wrong-arity arguments) on random roots; " +
+			"(2) random typed plans (statements setting keys under $.asm from nested numeric/string/boolean/list expressions of depth <= 3, cond, each with inner plans (also bodies that keep a scratch member under @ for some elements only, and set targets built from the data with at/root), get/getall/set/setall/del/delall, wrong-kind and wrong-arity arguments) on random roots; " +
 			"each plan is executed by asm.NewPlan(...).Execute, again on the same Plan value, and after rebuilding from Plan.String() (SEN text), Plan.Simplify() and from JSON text; checked: no escaped panic, no recovered Go runtime fault in the returned error, equal outcome (error flag and whole root) of all runs, outcome equal to the reference semantics where the descriptions define it, $.src unchanged when the plan contains no mutating function. " +
 			"non-trivial: a plan with at least one function call; distinct by plan and root text",
 		Assumptions: []string{
